@@ -13,7 +13,8 @@ class C14(Prop):
                 "C14_last_flush_refuted", "C14_debug_split_refuted",
                 "C14_bb_header_operation", "C14_bb_prefix_rejected", "C14_bb_prefix_rejected_ops", "C14_bb_prefix_complete",
                 "C14_bb_prefix_serves", "C14_bb_trace_is_file", "C14_bb_trace_is_file_multipass", "C14_bb_refused_input",
-                "C14_bb_fault", "C14_bb_fault_state"]
+                "C14_bb_fault", "C14_bb_fault_state",
+                "C14_prefix_serves_zoom", "C14_bb_prefix_serves_zoom"]
     RULE = ("bigWig: bbi cases (1-6 chromosomes, layouts from the grammar, options compress x items_per_slot x block_size x zoom modes x "
             "single/two pass) plus malformed inputs (overlap, end beyond the chromosome, start > end, unknown chromosome, chromosome "
             "order, empty) at the first/middle/last chromosome; for every case: the recorded sink trace, EVERY crash point at "
